@@ -1,7 +1,7 @@
 """C05 - printed configuration parses back to the same configuration (writer/reader agreement only)."""
 import re
 
-from .. import outmodel, loops as _loops, cfg as _cfg, sym, lexmodel, parsermodel as pm, report
+from .. import outmodel, loops as _loops, cfg as _cfg, sym, lexmodel, parsermodel as pm, report, failpaths as fp_
 
 EXPLANATION = (
     'Static writer/reader agreement, a necessary condition of the round trip (the round trip itself quantifies over '
@@ -88,9 +88,20 @@ def run(c, chk):
                         x = outmodel._strip(cn[2])
                         if x[0] == 'ld':
                             spec[sym.norm(x)] = cn[3][1] & 0xff
+                # membership in a constant set: strchr("...", byte) found something (the loop guard excludes the terminator)
+                member = {}
+                for e in p.events:
+                    if e.kind == 'call' and e.name in ('strchr', 'memchr') and len(e.args) > 1 and e.args[0][0] == 'str':
+                        x = outmodel._strip(e.args[1])
+                        if x[0] == 'ld' and any(fp_.is_null_assumption(cn, t) and fp_.is_null_assumption(cn, t)[0] == e.res and not fp_.is_null_assumption(cn, t)[1]
+                                                for cn, t, _ in p.assume):
+                            member[sym.norm(x)] = e.args[0][1]
                 byte = None
                 form = ''
+                setform = None
                 for t in toks:
+                    if t[0] == 'arg' and t[1] == '%c' and sym.norm(outmodel._strip(t[2])) in member and form == '\\' and len(toks) == len([x for x in toks if x[0] in ('lit', 'arg')]):
+                        setform = member[sym.norm(outmodel._strip(t[2]))]
                     if t[0] == 'lit':
                         form += t[1]
                         continue
@@ -106,6 +117,10 @@ def run(c, chk):
                         form += '\x02'
                 if byte is None and len(spec) == 1 and '\x01' not in form and '\x02' not in form:
                     byte = list(spec.values())[0]
+                if setform is not None and form == '\\\x01':
+                    for ch_ in setform:
+                        esc[ord(ch_)] = '\\' + ch_
+                    continue
                 if form == '\x01' or (byte is not None and form == chr(byte)):
                     raw_c = raw_c or byte is None
                     continue
@@ -157,7 +172,7 @@ def run(c, chk):
     nprinters = 0
     ex2 = sym.Explorer(c.modules, max_visits=2, mod_sets=c.mod_sets, max_paths=200000)
     for f in c.confuse.funcs.values():
-        if f.name in c.unknown_funcs or not any(outmodel.writes_anything(g) for g in c.deep_funcs(f)):
+        if c.is_helper(f.name) or not any(outmodel.writes_anything(g) for g in c.deep_funcs(f)):
             continue
         nprinters += 1
         hit = None
@@ -286,7 +301,7 @@ def number_formats(c, chk, ex):
     n = 0
     seen = set()
     for f in c.confuse.funcs.values():
-        if f.name in c.unknown_funcs or not any(outmodel.writes_anything(g) for g in c.deep_funcs(f)):
+        if c.is_helper(f.name) or not any(outmodel.writes_anything(g) for g in c.deep_funcs(f)):
             continue
         for p in ex.explore(f):
             if p.end != 'ret':
@@ -335,7 +350,7 @@ def section_headers(c, chk, ex):
     n = 0
     bad = None
     for f in c.confuse.funcs.values():
-        if f.name in c.unknown_funcs or not any(outmodel.writes_anything(g) for g in c.deep_funcs(f)):
+        if c.is_helper(f.name) or not any(outmodel.writes_anything(g) for g in c.deep_funcs(f)):
             continue
         for p in ex.explore(f):
             if p.end != 'ret':
